@@ -1,6 +1,9 @@
 package scen
 
 import (
+	"simlal/sim/actors"
+	"time"
+
 	"encoding/json"
 	"fmt"
 	"os"
@@ -59,6 +62,12 @@ func genC16Plan(r *sim.Rng, tier string) RelayPlan {
 		prof.Thorough = true
 	}
 	pl := GenRelayPlan(r, prof)
+	if r.Bool(0.06) {
+		// the RTSP variant of the idle-input clause
+		q := RelayPlan{Sched: pl.Sched, Conf: LalConf{RtmpGop: 1, RtspEnable: true, ApiEnable: true, NoHook: true, HlsEnable: r.Bool(0.5), HlsFragMs: 1000, HlsFragNum: 3, HlsCleanup: r.Intn(3)}}
+		q.RtspIdle = &RtspIdlePlan{Tcp: r.Bool(0.5), ActiveMs: []int{3000, 60000, 125000, 130000, 200000, 250000}[r.Intn(6)], WithAudio: r.Bool(0.5), Cons: r.Intn(3)}
+		return q
+	}
 	pl.Conf.TsEnable = r.Bool(0.8)
 	pl.Conf.HlsEnable = r.Bool(0.7)
 	pl.Conf.HlsFragMs = []int{200, 500, 1000, 3000}[r.Intn(4)]
@@ -88,8 +97,93 @@ func genC16Plan(r *sim.Rng, tier string) RelayPlan {
 			pl.Ops[i].Kind = "idle_pub"
 			rest := append([]RelayOp{{Kind: "advance", Ms: 245000}}, pl.Ops[i+1:]...)
 			pl.Ops = append(pl.Ops[:i+1:i+1], rest...)
+			if r.Bool(0.5) {
+				// the publisher is still sending when the first liveness sweep looks at it and falls silent later
+				for j := i - 1; j >= 0; j-- {
+					if pl.Ops[j].Kind == "send" && pl.Ops[j].Pub == pl.Ops[i].Pub {
+						adv := RelayOp{Kind: "advance", Ms: 121000 + r.Intn(75000)}
+						pl.Ops = append(pl.Ops[:j:j], append([]RelayOp{adv}, pl.Ops[j:]...)...)
+						break
+					}
+				}
+				return finishC16(r, pl)
+			}
 		}
 	}
+	return finishC16(r, pl)
+}
+
+// runC16RtspIdle: "an input that stops sending is disconnected by the idle check" for the input kind that has no
+// socket read timeout of its own (RTSP publishers; RTMP publishers are also cut by their 120 s read timeout).
+func runC16RtspIdle(k *sim.Kernel, pl RelayPlan) {
+	ip := pl.RtspIdle
+	w := StartWorld(k, pl.Conf)
+	cp := C07Plan{Video: "avc", AacSrIdx: 4, SdpParams: true, MaxPayload: 1200, Transport: "udp"}
+	if ip.WithAudio {
+		cp.Audio = "aac"
+	}
+	n := ip.ActiveMs/1000 + 2
+	for i := 0; i < n; i++ {
+		cp.Frames = append(cp.Frames, C07Frame{Track: 0, Ts: uint64(i) * 90000, Nals: []C07Nal{{T: 5, N: 200}}})
+		if ip.WithAudio {
+			cp.Frames = append(cp.Frames, C07Frame{Track: 1, Ts: uint64(i) * 44100, N: 100})
+		}
+	}
+	src := buildC07(&cp)
+	pub := actors.NewRtspClient(k, "pub", "pub", fmt.Sprintf("rtsp://127.0.0.1:%d/live/idle", PortRtsp), ip.Tcp)
+	pub.Sdp = src.sdp()
+	pub.ClientPort = 20000
+	pub.Tracks = actors.ParseSdpTracks(pub.Sdp)
+	pub.Connect(PortRtsp, 1)
+	k.Settle()
+	if !pub.Ready {
+		k.Abort("rtsp publish not accepted")
+	}
+	var subs []*actors.RtmpClient
+	for i := 0; i < ip.Cons; i++ {
+		c := actors.NewRtmpClient(k, fmt.Sprintf("cons%d", i), actors.RolePlay, "live", "idle")
+		c.Connect(PortRtmp, 10+i)
+		subs = append(subs, c)
+	}
+	k.Settle()
+	sent := [2]int{}
+	for fi, f := range cp.Frames {
+		for range src.fpk[fi] {
+			pub.SendRtp(src.trackIndex(f.Track), src.pkts[f.Track][src.order[f.Track][sent[f.Track]]])
+			sent[f.Track]++
+		}
+		k.Settle()
+		if f.Track == 0 {
+			k.Advance(time.Second)
+		}
+	}
+	if pub.Closed {
+		k.Violate("C16.active-input-disconnected", "the RTSP publisher was disconnected while it was still sending (after %d ms)", k.NowMs())
+	}
+	silentAt := k.NowMs()
+	// two liveness sweeps (120 s apart) after the last packet at the latest
+	k.Advance(250 * time.Second)
+	k.Settle()
+	if !pub.Closed {
+		k.Violate("C16.idle-not-disconnected", "the RTSP publisher (%s) sent for %d ms, fell silent at %d ms and is still connected %d ms later", map[bool]string{true: "interleaved TCP", false: "UDP"}[ip.Tcp], ip.ActiveMs, silentAt, k.NowMs()-silentAt)
+	}
+	for _, c := range subs {
+		c.Leave(false)
+	}
+	k.Settle()
+	k.Advance(3 * time.Second)
+	res := w.Api("api-stat-idle", "/api/stat/group?stream_name=idle", nil)
+	if res.Done && res.ErrorCode() == 0 {
+		k.Violate("C16.group-not-removed", "the group of the timed-out stream still exists after every session has gone: %s", res.Body)
+	}
+	if n := len(k.UDPBoundPorts()); n != 0 {
+		k.Violate("C16.fd-leak", "%d UDP sockets of the timed-out RTSP publisher are still bound: %v", n, k.UDPBoundPorts())
+	}
+	k.Probe("nontrivial")
+	k.Probe("c16_rtsp_idle_checked")
+}
+
+func finishC16(r *sim.Rng, pl RelayPlan) RelayPlan {
 	pl.Epilogue = true
 	pl.Dispose = r.Bool(0.12)
 	return pl
@@ -295,7 +389,7 @@ func CheckC16(k *sim.Kernel, rr *RelayRun, hls *HlsTracker) {
 	// 7. idle inputs are disconnected
 	for i, p := range rr.Pubs {
 		if p.Idled {
-			if !p.Actor.Closed {
+			if !p.IdleClosed {
 				k.Violate("C16.idle-not-disconnected", "pub%d stopped sending at %d ms but was never disconnected", i, p.IdleAtMs)
 			}
 			k.Probe("c16_idle_checked")
@@ -311,6 +405,10 @@ func init() {
 		Run: func(k *sim.Kernel, plan json.RawMessage) {
 			var pl RelayPlan
 			fromJSON(plan, &pl)
+			if pl.RtspIdle != nil {
+				runC16RtspIdle(k, pl)
+				return
+			}
 			hls := TrackHls(k)
 			rr := ExecRelay(k, pl)
 			CheckC16(k, rr, hls)
